@@ -343,6 +343,21 @@ impl ProcfsHandle {
         let subpath = subpath.as_ref();
         let mut oflags = oflags.into();
 
+        // Creating files makes no sense for procfs (nor for re-opening a
+        // handle through its magic-link), and the final component is opened
+        // directly below -- so refuse creation flags here the same way the
+        // procfs resolver does for every other lookup.
+        if oflags.intersects(OpenFlags::O_CREAT | OpenFlags::O_EXCL)
+            || oflags.contains(OpenFlags::O_TMPFILE)
+        {
+            Err(ErrorImpl::InvalidArgument {
+                name: "flags".into(),
+                description:
+                    "O_CREAT, O_EXCL and O_TMPFILE cannot be used with procfs handles or reopen"
+                        .into(),
+            })?
+        }
+
         // Drop any trailing /-es.
         let (subpath, trailing_slash) = utils::path_strip_trailing_slash(subpath);
         if trailing_slash {
